@@ -42,7 +42,7 @@ func H_C12_IntFromInt() {
 
 // H_C12_ReadInteger: ReadInteger never returns a complete value for short input; size free.
 //
-//verif:props C12 C03 C01
+//verif:props C12 C03 C01 C04
 //verif:witness complete short
 func H_C12_ReadInteger() {
 	n := nd.IntRange(0, 10)
@@ -161,7 +161,7 @@ func H_C12_DateFromTime() {
 
 // H_C12_ReadDate: ReadDate round trip and framing, N in 0..10.
 //
-//verif:props C12 C01 C03
+//verif:props C12 C01 C03 C04
 //verif:witness ok
 func H_C12_ReadDate() {
 	n := nd.IntRange(0, 10)
@@ -212,7 +212,7 @@ func H_C12_StringNew() {
 
 // H_C12_ReadString: ReadI2PString on free input: a complete value only when the declared length is available; round trip.
 //
-//verif:props C12 C01 C03
+//verif:props C12 C01 C03 C04
 //verif:witness ok short
 //verif:fanout 300
 func H_C12_ReadString() {
